@@ -158,6 +158,11 @@ func sortedByKey(l []JRes) []JRes {
 	return c
 }
 
+func jsonStr(v any) (string, error) {
+	b, err := json.Marshal(v)
+	return string(b), err
+}
+
 // ---------------------------------------------------------------- main
 
 func main() {
